@@ -776,4 +776,126 @@ func scenarios(cfg *mc.Config, emit func(mc.Scenario)) {
 	}
 }
 
-func main() { mc.Main("C17", scenarios) }
+// overlapScenario: several clients are served by one process.  Every order
+// of the events {handshake of connection i, reply to connection i} with each
+// handshake before its reply is one history; every client must obtain its own
+// request (target and arguments) and read exactly the reply issued for it --
+// state carried from one exchange into another would show here.
+func overlapScenario(nconn int) mc.Scenario {
+	return mc.Scenario{Name: fmt.Sprintf("overlap/%d-connections", nconn), Weight: 5, Run: func(c *mc.Ctx) {
+		tg := targets()
+		codes := []socks5.ReplyCode{socks5.ReplySucceeded, socks5.ReplyConnectionRefused, socks5.ReplyHostUnreachable}
+		// events: 2*i = handshake of i, 2*i+1 = reply to i
+		var orders [][]int
+		var rec func(cur []int, done []int)
+		rec = func(cur []int, done []int) {
+			if len(cur) == 2*nconn {
+				orders = append(orders, append([]int{}, cur...))
+				return
+			}
+			for i := 0; i < nconn; i++ {
+				if done[i] < 2 {
+					done[i]++
+					rec(append(cur, 2*i+done[i]-1), done)
+					done[i]--
+				}
+			}
+		}
+		rec(nil, make([]int, nconn))
+		n := 0
+		for _, order := range orders {
+			type cl struct {
+				cw, sw   *wire.Conn
+				m        [3][]byte
+				after    []byte // everything the client read after its three replies-so-far
+				e        expect
+				req      *socks5.Request
+				err      error
+				replyErr error
+			}
+			cls := make([]*cl, nconn)
+			for i := range cls {
+				x := &cl{}
+				x.cw, x.sw = wire.Pipe(fmt.Sprintf("tor%d", i), fmt.Sprintf("socks%d", i))
+				x.m[0] = []byte{5, 1, 2}
+				x.m[1] = userPass(encodeArgs([]kv{{fmt.Sprintf("key%d", i), fmt.Sprintf("value-%d;=", i)}}), 0)
+				x.m[2] = tg[i%len(tg)].encode()
+				x.e = decode(x.m[0], x.m[1], x.m[2])
+				cls[i] = x
+			}
+			res := sched.Run(c, sched.Options{NoPreempt: true, NoEarlyTimers: true, Start: start, MaxSteps: 1_000_000}, func() {
+				s := sched.Cur()
+				for i := range cls {
+					x := cls[i]
+					s.Spawn(fmt.Sprintf("client%d", i), func() {
+						buf := make([]byte, 64)
+						for k, m := range x.m {
+							x.cw.Write(m)
+							if k == 2 {
+								break
+							}
+							got := 0
+							for got < 2 {
+								j, err := x.cw.Read(buf)
+								got += j
+								if err != nil {
+									return
+								}
+							}
+						}
+						for {
+							j, err := x.cw.Read(buf)
+							x.after = append(x.after, buf[:j]...)
+							if err != nil {
+								return
+							}
+						}
+					})
+				}
+				for _, ev := range order {
+					x := cls[ev/2]
+					if ev%2 == 0 {
+						x.req, x.err = socks5.Handshake(x.sw)
+					} else if x.req != nil {
+						x.replyErr = x.req.Reply(codes[(ev/2)%len(codes)])
+					}
+				}
+				for _, x := range cls {
+					x.sw.Close()
+				}
+			})
+			n++
+			what := fmt.Sprintf("event order %v (2i = handshake of connection i, 2i+1 = its reply)", order)
+			if len(res.Panics) > 0 {
+				fail(c, "no-panic", "overlap/panic", "%s: %s", what, res.Panics[0])
+				return
+			}
+			for i, x := range cls {
+				if x.err != nil || x.req == nil {
+					fail(c, "accept", "overlap/rejected", "%s: connection %d: Handshake failed: %v", what, i, x.err)
+					return
+				}
+				if !targetMatches(x.e, x.req.Target) || argsString(x.req.Args) != argsString(x.e.args) {
+					fail(c, "request", "overlap/request", "%s: connection %d obtained target %q args %s, the client sent target %s:%d args %s", what, i, x.req.Target, argsString(x.req.Args), x.e.host, x.e.port, argsString(x.e.args))
+					return
+				}
+				want := []byte{5, byte(codes[i%len(codes)]), 0, 1, 0, 0, 0, 0, 0, 0}
+				if x.replyErr != nil || !bytes.Equal(x.after, want) {
+					fail(c, "reply", "overlap/reply", "%s: client %d read %x after its request (Reply error: %v), the reply issued for it is %x", what, i, x.after, x.replyErr, want)
+					return
+				}
+			}
+		}
+		c.AddExecutions(int64(n))
+		c.Count("overlap_histories", int64(n))
+		c.Observe("overlap", n)
+	}}
+}
+
+func main() {
+	mc.Main("C17", func(cfg *mc.Config, emit func(mc.Scenario)) {
+		scenarios(cfg, emit)
+		emit(overlapScenario(2))
+		emit(overlapScenario(3))
+	})
+}
